@@ -311,7 +311,48 @@ def fuzz_custom(tier, seed, shard, nshards, stats, rec):
     stats.note({"shard": shard, "seeded": bool(seeds)}, True, classes=["atheris_campaign_seeded" if seeds else "atheris_campaign_empty_corpus"])
 
 
+def large_enumerate(tier, shard, nshards):
+    from ..runner import shard_iter
+
+    def gen():
+        for n, vlen in ((2000, 4), (900, 60), (5000, 0), (70, 900)):
+            yield {"n": n, "vlen": vlen}
+
+    return shard_iter(gen(), shard, nshards)
+
+
+def large_execute(case, stats):
+    """Blocks with very many records / beyond 6, 8 and 64 KiB: decoding and view agreement."""
+    from dissect.cobaltstrike.beacon import BeaconConfig
+
+    recs = []
+    for i in range(case["n"]):
+        idx = 100 + (i % 400) if i % 7 else 37
+        typ = 3 if case["vlen"] not in (2, 4) else (2 if case["vlen"] == 4 else 1)
+        recs.append((idx, typ, bytes([(i * 7 + j) & 0xFF for j in range(case["vlen"])])))
+    block = tlv.encode(recs) + b"garbage after the terminator"
+    ref = tlv.decode(block)
+    assert len(ref) == case["n"]
+    c = lib(BeaconConfig, block, what="BeaconConfig(large block)")
+    got = [(s_.index.value, s_.type.value, s_.length, bytes(s_.value)) for s_ in c.settings_tuple]
+    if got != ref:
+        i = next((k for k, (a, b) in enumerate(zip(got, ref)) if a != b), min(len(got), len(ref)))
+        check(False, "decode:settings_tuple", f"{case['n']} records of {case['vlen']} bytes ({len(block)}-byte block): {len(got)} decoded, first difference at record {i}")
+    order = list(dict.fromkeys(r[0] for r in ref))
+    eq(list(lib(lambda: c.raw_settings_by_index).keys()), order, "views:const_order", "key order of a large block")
+    eq(len(lib(lambda: c.settings)), len(order), "views:name_key_count", "number of name keys of a large block")
+    # bytes and file-object input agree
+    import io
+
+    from dissect.cobaltstrike.beacon import iter_settings
+
+    n_file = sum(1 for _ in lib(lambda: list(iter_settings(io.BytesIO(block))), what="iter_settings(BytesIO)"))
+    eq(n_file, case["n"], "decode:file_vs_bytes", "iter_settings on a file object vs bytes")
+    stats.note(case, True, classes=["large_block"])
+
+
 SUBS = [
+    Sub("large_blocks", large_execute, enumerate=large_enumerate, exhaustive=True),
     Sub("decode_views", execute, strategy=case_strategy, examples={"quick": 6400, "thorough": 128000}),
     Sub("atheris_differential", fuzz_execute, custom=fuzz_custom, shards={"quick": 1, "thorough": 4}),
 ]
